@@ -425,7 +425,7 @@ func programBinding(r *core.Run, cfgName string) {
 			for _, m := range ur.Mismatches {
 				pends = append(pends, pend{p: p, v: variants[w.vidx[m.Variant-1]], m: m, out: jobs[ci].Srcs[m.Variant], unit: ui})
 			}
-			if ui == 0 && ci%97 == 0 {
+			if ui == 0 && ci%20 == 0 {
 				r.Sample(map[string]interface{}{"kind": "program", "family": p.Kind, "source": p.fn, "labels": p.Labels,
 					"spec_trace_row0": p.Expect[0].canonical(), "v8_trace_row0": ur.Traces[envKey(p.Rows[0][0]*table.Q+p.Rows[0][1])]})
 			}
@@ -722,6 +722,9 @@ func optionsBinding(r *core.Run, table *envTable, cases []*optCase) {
 				}
 			}
 			src := function(c.Prog)
+			if k == 5 && dvi == 1 {
+				r.Sample(map[string]interface{}{"kind": "define/pure/drop", "source": src, "define": c.Dv.Ser(), "reference": function(c.Keep), "spec_trace_row0": c.Expect[0].canonical()})
+			}
 			id := core.Hash(src + c.Dv.Ser())
 			r.Case(id, function(c.Keep) != src)
 			if drift {
